@@ -246,6 +246,41 @@ def qos_check(ctx):
                    samples=sample_ops(traces), complaints=len(comp))
 
 
+SESSION_PROFILES = {
+    "C13": dict(weights=dict(connect=6, subscribe=2, publish=4, disconnect=2, netdrop=2, takeover=2, bad_connect=10, ackall=1), wills=0.2,
+                auth=["allow", "allow", "none", "acl"], maxqos=[2, 2, 1], retain_avail=[1, 1, 0], minproto=[3, 3, 4]),
+    "C14": dict(weights=dict(connect=8, subscribe=6, publish=8, disconnect=2, netdrop=3, takeover=6, ackall=1, tick_clients=1), sei=[-1, 0, 30, 300], wills=0.0),
+    "C15": dict(weights=dict(connect=8, subscribe=6, publish=6, disconnect=4, netdrop=4, takeover=1, tick_clients=8, disc_sei=3, ackall=1), sei=[-1, 0, 30, 100, 300],
+                max_sess_expiry=[-1, -1, 50, 200]),
+    "C16": dict(weights=dict(connect=8, subscribe=2, publish=2, disconnect=4, netdrop=5, disc04=3, proto_err=2, takeover=4, tick_wills=8, tick_clients=2, ackall=1),
+                wills=0.9, will_delay=[0, 0, 20, 20, 200], sei=[-1, 0, 30, 300], p_clean=0.5),
+}
+
+
+def session_check(ctx):
+    pid = ctx.pid
+    n = 120 if ctx.quick else 1500
+    rng = random.Random("%s-%d" % (pid, ctx.seed))
+    prof = SESSION_PROFILES[pid]
+    hs = []
+    for i in range(n):
+        c = gen.cfg(deny_conn=["denied"], auth="acl")
+        if prof.get("auth"):
+            c["auth"] = rng.choice(prof["auth"])
+        for key, field in (("maxqos", "max_qos"), ("retain_avail", "retain_avail"), ("minproto", "min_proto"), ("max_sess_expiry", "max_sess_expiry")):
+            if prof.get(key):
+                c[field] = rng.choice(prof[key])
+        hs.append(dict(name="%s-%d-%d" % (pid, ctx.seed, i), cfg=c, ops=gen.session_history(rng, prof)))
+    traces = drive(ctx, hs, pid.lower())
+    comp, lines, states = validate(ctx, traces, [pid], pid.lower())
+    report(ctx, comp, pid)
+    nt = nontrivial(traces, lambda e: e["ev"] in ("connect", "disconnect", "netdrop", "tick", "raw") and "%s-%s-%s" % (e["ev"], e["a"].get("kind", ""), sorted((k == e["k"], p["t"], p["rc"], p["sp"]) for k, ps in e["out"].items() for p in ps)))
+    ctx.cov.update(_level="model_checking", states=max(states, 1), transitions=max(lines, 1),
+                   traces_validated_against_impl=len(traces), evaluations=lines, distinct_nontrivial=len(nt),
+                   rule="seeded random session histories (profile %s: connects incl. invalid/unauthorised ones, takeovers, disconnect kinds, wills with delays, housekeeping at virtual times) executed on the real broker; every step judged by TLC with Enforce={%s}" % (pid, pid),
+                   samples=sample_ops(traces), complaints=len(comp))
+
+
 def routing_check(ctx):
     pid = ctx.pid
     n = 120 if ctx.quick else 1500
@@ -262,3 +297,4 @@ def routing_check(ctx):
 
 FAMILY = {p: routing_check for p in ENFORCE}
 FAMILY.update({p: qos_check for p in QOS_PROFILES})
+FAMILY.update({p: session_check for p in SESSION_PROFILES})
